@@ -1074,15 +1074,17 @@ def sh_prefixsid(tlv, th):
             n = ctx.pick('n', (0, 1, 2, 7, 8, 9, 14))
             return Shape([3] + be(n, 2) + sym(ctx, 'v', n))
         if tlv in (5, 6):
-            which = ctx.pick('which', ('empty', 'reserved-only', 'sid-info', 'sid-info+structure', 'sid-info-short', 'generic-sub', 'sub-free'))
+            which = ctx.pick('which', ('empty', 'reserved-only', 'sid-info', 'sid-info+structure', 'sid-info+unknown-sub-sub', 'sid-info-short', 'generic-sub', 'sub-free'))
             if which == 'empty':
                 body = []
             elif which == 'reserved-only':
                 body = sym(ctx, 'rsv', 1)
-            elif which in ('sid-info', 'sid-info+structure', 'sid-info-short'):
+            elif which in ('sid-info', 'sid-info+structure', 'sid-info+unknown-sub-sub', 'sid-info-short'):
                 info = sym(ctx, 'r1', 1) + sym(ctx, 'sid', 16) + sym(ctx, 'fl', 1) + sym(ctx, 'beh', 2) + sym(ctx, 'r2', 1)
                 if which == 'sid-info+structure':
                     info += [1, 0, 6] + sym(ctx, 'st', 6)
+                if which == 'sid-info+unknown-sub-sub':
+                    info += [9, 0, 2] + sym(ctx, 'uu', 2)      # a sub-sub-TLV type nobody registered
                 if which == 'sid-info-short':
                     info = info[:ctx.pick('k', (0, 20))]
                 body = sym(ctx, 'rsv', 1) + [1] + be(len(info), 2) + info
@@ -1099,6 +1101,26 @@ def sh_prefixsid(tlv, th):
 
 def sh_prefixsid_free(lengths):
     return lambda ctx: Shape(sym(ctx, 'p', ctx.pick('L', lengths)))
+
+
+def sh_prefixsid_repeated(ctx):
+    """one TLV type twice in the attribute: label-index, SRGB, or a type nobody registered"""
+    which = ctx.pick('which', ('label-index', 'srgb', 'unknown'))
+    if which == 'label-index':
+        return Shape([1, 0, 7] + sym(ctx, 'a', 7) + [1, 0, 7] + sym(ctx, 'b', 7))
+    if which == 'srgb':
+        return Shape([3, 0, 8] + sym(ctx, 'a', 8) + [3, 0, 8] + sym(ctx, 'b', 8))
+    return Shape([77, 0, 2] + sym(ctx, 'a', 2) + [77, 0, 2] + sym(ctx, 'b', 2))
+
+
+def sh_ls_float(code, n):
+    """BGP-LS bandwidth TLVs hold IEEE-754 floats chosen by the peer: a NaN, an infinity, or free octets"""
+    def f(ctx):
+        which = ctx.pick('float', ('nan', 'inf', '-inf', 'free'))
+        one = {'nan': [0x7F, 0xC0, 0, 0], 'inf': [0x7F, 0x80, 0, 0], '-inf': [0xFF, 0x80, 0, 0]}.get(which)
+        v = one * (n // 4) if one else sym(ctx, 'v', n)
+        return Shape(be(code, 2) + be(n, 2) + v)
+    return f
 
 
 def sh_prefixsid_two(ctx):
@@ -1370,6 +1392,8 @@ def attr_plans(tier):
                     continue
                 lens = sorted(set(rng(0, 8) + [getattr(k, 'LEN', 0) or 0] + list(LS_LENGTH_HINTS.get(tlv, ())) + (rng(9, 16) if th else [])))
                 add('%s/tlv%d' % (c, tlv), code, flag, sh_ls(tlv, lens), ('decoded',), kind='attr-29:%s' % k.__name__, weight=30)
+            for tlv, n in ((1089, 4), (1090, 4), (1091, 32)):
+                add('%s/float%d' % (c, tlv), code, flag, sh_ls_float(tlv, n), ('decoded',))
             add(c + '/unknown-tlv', code, flag, sh_ls(4242, rng(0, 5)), ('decoded',))
             add(c + '/two-tlvs', code, flag, sh_ls_two(1095, 3, 1092, 4), ('decoded',))
             add(c + '/repeated', code, flag, sh_ls_two(1092, 4, 1092, 4), ('refused',))
@@ -1383,6 +1407,7 @@ def attr_plans(tier):
                 add('%s/tlv%d' % (c, tlv), code, flag, sh_prefixsid(tlv, th), ('decoded',), kind='attr-40:%s' % k.__name__, weight=60)
             add(c + '/unknown-tlv', code, flag, sh_prefixsid(77, th), ('decoded', 'canonical'))
             add(c + '/two-tlvs', code, flag, sh_prefixsid_two, ('decoded', 'canonical'))
+            add(c + '/repeated-tlv', code, flag, sh_prefixsid_repeated, ('decoded',))
             add(c + '/free', code, flag, sh_prefixsid_free(rng(0, 5 if th else 4)), ('decoded', 'refused'), weight=60)
         else:
             # an attribute registered after this file was written: every length up to 8 (12 thorough), all octets symbolic
